@@ -4,19 +4,58 @@ from pathlib import Path
 
 ROOT = Path(__file__).resolve().parent.parent
 
-# id -> (technique, level text, level note)
-CLAIMED = {
-    "C03": (
-        "bounded explicit-state exploration of Grid derivation chains on the real objects, float64 reference grid in lock step",
-        "All chains of derivation calls (resize/reshape/down/upsample/pyramid/resample/crop/pad/narrow/roi/center_crop/center_pad/pool/"
-        "Cube.grid/align_corners; ~75 argument forms) of length <= 2 (quick) or <= 3 (thorough, reduced alphabet at depth 3) from every "
-        "initial grid of a lattice (D 2/3, odd/even sizes, anisotropic spacing, origin 0 and large, identity/permuted/rotated, both flags) are "
-        "executed on real Grid objects; every reached state is compared with a reference grid derived from the promises of the property "
-        "(center/direction kept, corners or extent kept, retained samples keep their world position, no exception).",
-        "Trusted: ref/grid.py (numpy float64 semantics written from the docstrings), float32 tolerance rule of DESIGN 3.4, knife-edge rule 3.6. "
-        "Nothing is claimed beyond the lattice, alphabet and depth reported in the evidence.",
-    ),
+TECHNIQUE = {
+    "C01": "exhaustive frame-graph exploration (edges, paths <= 2/3, anchors, complete n in [1,4096] lattice) of real Grid/Cube maps vs float64 reference",
+    "C02": "exhaustive enumeration of oriented geometries (all signed permutations + rotations) x continuous-index lattice x header chains vs SimpleITK",
+    "C03": "bounded explicit-state exploration of Grid derivation chains on the real objects, float64 reference grid in lock step",
+    "C04": "bounded explicit-state exploration of image operation chains on ramp-carrying images with a reference grid + validity mask in lock step",
+    "C05": "exhaustive enumeration of (source grid, target grid, mode, padding, batch form, API) with impulse-basis images vs ITK resampler / numpy interpolator",
+    "C06": "exhaustive enumeration of transform class x parameter menu x grid x view transitions; all views must denote one reference world map",
+    "C07": "bounded exploration of all histories (make-inverse forms, edits, replacements, updates, evaluations) on (transform, inverse) pairs sharing parameters",
+    "C08": "exhaustive enumeration of operand-form / batch-shape / order-string / angle-lattice products vs float64 4x4 and quaternion algebra",
+    "C09": "state-dedup breadth-first search over all operation histories of live transforms (+ inverse, + copy) against a reference record",
+    "C10": "exhaustive path exploration of the 4-node vector-representation graph (paths <= 3) and representation-independence of warp/sample/exp",
+    "C11": "exhaustive enumeration of (shape, align_corners, generator, steps 0..8, scale, dtype, batch, API) vs closed form (I+H/2^k)^(2^k)",
+    "C12": "exhaustive enumeration of (D, shape, spacing form, mode, key subset, function) on polynomial basis fields vs analytic derivatives",
+    "C13": "exhaustive enumeration of field menus x {compose, bracket, BCH terms 0..5, logv o expv} x align_corners vs closed forms and algebraic relations",
+    "C14": "complete ranges stride 1..16 x derivative 0..3 x sizes 1..64 and impulse-basis coefficients vs exact rational cubic B-spline basis; subdivision chains",
+    "C15": "exhaustive sweep of the functional API surface x aliasing-sensitive argument forms, and all copy/mutate histories <= 3, with bitwise + _version fingerprints",
+    "C16": "exhaustive enumeration of input-transformation edges (swap, a*x+b, edits outside mask, mask forms, norm, reduction, module vs functional) per loss",
+    "C17": "exhaustive enumeration of field-transformation edges (add affine, scale, respace), analytic values, all six elastic-constant pairs, inverse-consistency units",
+    "C18": "complete enumeration of format x D x channels x dtype x grid x compress x direction x entry point write/read chains vs exact equality and SimpleITK cross-read",
+    "C19": "exhaustive enumeration of all programs of torch operations up to length 2/3 on batches with tagged items and distinct grids; provenance decoded from data",
+    "C20": "exhaustive enumeration of differentiable operations x every scalar input coordinate: autograd vs central differences with measured precision mode",
 }
+
+
+def claimed_table():
+    """Texts come from the check modules themselves (RULE / EXPLANATION / ASSUMPTIONS)."""
+    import importlib
+    import sys
+
+    sys.path.insert(0, str(ROOT))
+    from mc.runner import CHECKS, setup_env
+
+    setup_env()
+    table = {}
+    for pid, modname in sorted(CHECKS.items()):
+        if pid in EXCLUDE:
+            continue
+        try:
+            mod = importlib.import_module(modname)
+        except ModuleNotFoundError:
+            continue
+        rule = " ".join(str(getattr(mod, "RULE", "")).split())
+        expl = " ".join(str(getattr(mod, "EXPLANATION", "")).split())
+        assum = [" ".join(str(a).split()) for a in getattr(mod, "ASSUMPTIONS", [])]
+        text = (expl + ". " if expl else "") + "Every case of the space described here is executed on the real code and judged: " + rule
+        note = "Trusted: the reference models under /verif/ref (float64 / exact rationals, written from docstrings and textbook formulas), SimpleITK where named, the tolerance and knife-edge rules of DESIGN.md section 3. " + " ".join(a.rstrip(".") + "." for a in assum) + " Nothing is claimed beyond the menus, lattices and depths reported in the evidence."
+        table[pid] = (TECHNIQUE[pid], text[:3000], note[:3000])
+    return table
+
+
+# properties deliberately not claimed: id -> reason
+EXCLUDE = {}
 
 NOT_YET = {}
 
@@ -27,6 +66,7 @@ def main():
     props = [json.loads(l) for l in (ROOT / "properties.jsonl").read_text().splitlines() if l.strip()]
     checks = []
     na = []
+    CLAIMED = claimed_table()
     for p in props:
         pid = p["id"]
         if pid in CLAIMED:
@@ -45,7 +85,7 @@ def main():
                 }
             )
         else:
-            na.append({"property_id": pid, "reason": NOT_YET.get(pid, "check not built yet in this round (planned in DESIGN.md section 4); nothing is claimed for it")})
+            na.append({"property_id": pid, "reason": EXCLUDE.get(pid, NOT_YET.get(pid, "check not built yet in this round (planned in DESIGN.md section 4); nothing is claimed for it"))})
     manifest = {
         "version": 1,
         "setup_cmd": "/venv/bin/python -m mc.selftest",
